@@ -16,9 +16,12 @@ class ConnectError(Exception):
 
     def __str__(self):
         s = self.__doc__ or self.__class__.__name__
+        if self.osError:
+            s = "%s: %s" % (s, self.osError)
         if self.args and self.args[0]:
             s = "%s: %s" % (s, self.args[0])
-        return "%s." % s
+        s = "%s." % s
+        return s
 
 
 class ConnectionRefusedError(ConnectError):
